@@ -190,7 +190,7 @@ def build(spec):
     b.load_gen = 0
     b.E[-1].external_torque = make_load(b, spec['load']['coef'], spec['load']['unit'], 0)
     ini = spec['init']
-    b.E[-1].angular_position = Q('AngularPosition', ini['pos'])
+    b.E[-1].angular_position = Q(ini.get('pos_kind', 'AngularPosition'), ini['pos'])
     b.E[-1].angular_speed = Q('AngularSpeed', ini['speed'])
     if m.get('pwm0') is not None:
         motor.pwm = m['pwm0']
@@ -357,7 +357,7 @@ def simulate(spec, b=None):
                 lock.flags = []
                 b.load_log.clear()
             elif op['op'] == 'init':
-                E[-1].angular_position = Q('AngularPosition', op['pos'])
+                E[-1].angular_position = Q(op.get('pos_kind', 'AngularPosition'), op['pos'])
                 E[-1].angular_speed = Q('AngularSpeed', op['speed'])
             elif op['op'] == 'new':
                 solver = Solver(pt)
@@ -427,7 +427,8 @@ def observe(b, solver, lock):
             kind = KIND_OF_VAR[var]
             vals = []
             for x in lst:
-                if type(x).__name__ != kind:
+                if type(x).__name__ != kind and BASE.get(type(x).__name__) != kind:
+                    # (a sub-kind is a quantity of the variable's kind: an Angle is an AngularPosition)
                     bad_kind.append((ei, var, type(x).__name__))
                     vals.append(float('nan'))
                 else:
@@ -657,7 +658,11 @@ def compare_hist(tr, st, recs, rel=1e-7):
     if impl_err is None and not st['ok']:
         return f"model raised {st.get('cls')} at op {st.get('at')}, implementation finished"
     if impl_err is not None and not st['ok']:
-        if impl_err[1] != st.get('cls') or str(impl_err[0]) != st.get('at'):
+        # the model's schedule has no entry for the ops that only touch the objects (re-declaration, in-place
+        # re-expression, load replacement, snapshot): count the model-visible ops before the failing one
+        MODEL_OPS = ('run', 'reset', 'init', 'new', 'pwm')
+        at = sum(1 for r in (tr.get('ops') or [])[:impl_err[0]] if r['op'] in MODEL_OPS)
+        if impl_err[1] != st.get('cls') or str(at) != st.get('at'):
             return f"different errors: implementation {impl_err[1]}@{impl_err[0]}, model {st.get('cls')}@{st.get('at')}"
         return None     # a failed run leaves a partly appended instant; histories are not compared
     n = len(tr['time'])
